@@ -17,6 +17,9 @@ use crate::{
     Error,
 };
 
+/// Maximum number of bytes that decoding a serialized [Program] may claim.
+const PROGRAM_DECODING_LIMIT: usize = 1 << 24;
+
 #[derive(Clone, Debug, Encode, Decode, Serialize, Deserialize)]
 struct Program {
     instructions: Vec<Instruction>,
@@ -184,9 +187,12 @@ impl Relation for ZkirRelation {
     fn read_relation<R: io::Read>(reader: &mut R) -> io::Result<Self> {
         // `decode_from_std_read` returns the decoded value alone (not paired with a
         // byte count): decode exactly what `write_relation` wrote and nothing more.
+        //
+        // The input is untrusted: bound the memory the decoder may claim, so that a
+        // length prefix cannot make it pre-allocate (or overflow) on its own.
+        let config = bincode::config::standard().with_limit::<PROGRAM_DECODING_LIMIT>();
         let program: Program =
-            bincode::decode_from_std_read(reader, bincode::config::standard())
-                .map_err(io::Error::other)?;
+            bincode::decode_from_std_read(reader, config).map_err(io::Error::other)?;
 
         Self::from_instructions(&program.instructions)
             .map_err(|e| io::Error::other(format!("{e:?}")))
